@@ -41,17 +41,26 @@ func (s *Stash) LoadExpanded(filename string) {
 	}
 	r := NewLineReader(f, 4096)
 	var (
-		line []byte
-		buf  []byte
-		form Form
+		line    []byte
+		buf     []byte
+		form    Form
+		offset  int64 // bytes of the file read so far
+		goodEnd int64 // end of the last complete form
 	)
 	for {
 		if line, err = r.ReadLine(); err != nil {
 			if errors.Is(err, io.EOF) {
+				if 0 < len(line) || 0 < len(buf) {
+					// The file ends in a form that is not complete, what is
+					// left of a write that was cut short. Remove it so that
+					// the next form added is not taken as a part of it.
+					_ = os.Truncate(filename, goodEnd)
+				}
 				break
 			}
 			panic(err)
 		}
+		offset += int64(len(line)) + 1
 		if 0 < len(line) {
 			if bytes.ContainsRune(line, '\t') {
 				for _, sub := range bytes.Split(line, []byte{'\t'}) {
@@ -70,7 +79,10 @@ func (s *Stash) LoadExpanded(filename string) {
 				s.forms = append(s.forms, form)
 				buf = buf[:0]
 				form = nil
+				goodEnd = offset
 			}
+		} else if len(buf) == 0 {
+			goodEnd = offset
 		}
 	}
 }
